@@ -410,17 +410,23 @@ def h_relink_group(env, species, factor, staying, leaving, canary=False):
     from tangelo.problem_decomposition.oniom._helpers.helper_classes import Link
     geom = [("C", (0.0, 0.0, 0.0)), ("C", (1.1, 0.9, -0.4)), ("H", (-0.7, 0.6, 0.9)), ("N", (2.0, -1.3, 0.8))]
     with shim.concrete_mode():
-        link = Link(staying, leaving, factor, species)
+        import copy as _copy
+        from tangelo.problem_decomposition.oniom._helpers.capping_groups import chemical_groups
+        # the template the caller named: the library's table entry (deep copy taken BEFORE the call) or the caller's own list
+        given = _copy.deepcopy(chemical_groups[species]) if isinstance(species, str) else _copy.deepcopy(list(species))
+        link = Link(staying, leaving, factor, species if isinstance(species, str) else _copy.deepcopy(species))
         out = link.relink(geom)
-        tmpl = [a for a in link.species if a[0].upper() != "X"]
-        ghost = np.array(link.species[0][1], dtype=float)
+        tmpl = [a for a in given if a[0].upper() != "X"]
+        ghost = np.array(given[0][1], dtype=float)
+        if isinstance(species, str):
+            env.check_true(str(chemical_groups[species]) == str(given), f"{species}: the library's template table is unchanged by the call")
     P = np.array([p for _, p in out], dtype=float)
     T = np.array([t for _, t in tmpl], dtype=float)
     s_, l_ = np.array(geom[staying][1]), np.array(geom[leaving][1])
     want0 = s_ + factor * (l_ - s_)
     if canary:
         want0 = s_ + (1 - factor) * (l_ - s_)
-    env.check_true(float(np.abs(P[0] - want0).max()) < 1e-9, f"{species}: first atom sits at staying + factor*(leaving - staying)", detail=str(P[0] - want0))
+    env.check_true(float(np.abs(P[0] - want0).max()) < 1e-9, f"{species if isinstance(species, str) else 'custom group'}: first atom sits at staying + factor*(leaving - staying)", detail=str(P[0] - want0))
     env.check_same([e for e, _ in out], [e for e, _ in tmpl], "elements of the cap")
     dP = np.linalg.norm(P[:, None, :] - P[None, :, :], axis=-1)
     dT = np.linalg.norm(T[:, None, :] - T[None, :, :], axis=-1)
@@ -536,6 +542,13 @@ def shapes(tier, seed):
     for sp in ("CH3", "CF3", "NH2"):
         for (st, lv, fac) in ((0, 1, 0.71), (1, 3, 1.0), (3, 1, 0.5)):
             out.append(Shape(f"aux/relink_group/{sp}/{st}-{lv}/{fac}", h_relink_group, dict(species=sp, factor=fac, staying=st, leaving=lv)))
+    # the caller's own groups (documented: a list or tuple whose first entry is the ghost atom 'X'), ghost atom NOT at the origin
+    custom = {"CFICl": [("X", (0.3, -0.2, 0.5)), ("C", (0.9, 0.4, 1.1)), ("F", (1.5, 1.3, 0.6)), ("I", (1.9, -0.6, 2.2)), ("Cl", (-0.2, 1.2, 2.0))],
+              "OH-tuple": (("x", (-1.0, 2.0, 0.25)), ("O", (-1.0, 2.0, 1.25)), ("H", (-0.2, 2.5, 1.6))),
+              "ghost-origin": [("X", (0.0, 0.0, 0.0)), ("N", (0.0, 0.0, 1.0)), ("H", (0.9, 0.0, 1.4)), ("H", (-0.4, 0.8, 1.4))]}
+    for nm_, sp_ in custom.items():
+        for (st, lv, fac) in ((0, 1, 0.71), (3, 1, 0.5)):
+            out.append(Shape(f"aux/relink_group/custom-{nm_}/{st}-{lv}/{fac}", h_relink_group, dict(species=sp_, factor=fac, staying=st, leaving=lv)))
     out.append(Shape("canary/aux/relink_group", h_relink_group, dict(species="CH3", factor=0.71, staying=0, leaving=1, canary=True), canary=True))
     for i, nested in enumerate(perms):
         nm = "_".join("".join(map(str, f)) for f in nested)
